@@ -1,4 +1,5 @@
 mod absmodel;
+mod bdlparse;
 mod bvhcheck;
 mod clicheck;
 mod convert;
@@ -35,6 +36,7 @@ fn worker(kind: &str) {
             "bvh" => bvhcheck::worker_handle(&req),
             "cli" => clicheck::worker_handle(&req),
             "convert" => convert::worker_handle(&req),
+            "bdlparse" => bdlparse::worker_handle(&req),
             "faults" => faults::worker_handle(&req),
             _ => serde_json::json!({"error": "unknown worker kind"}),
         };
@@ -56,6 +58,7 @@ fn main() {
         "sched" => sched::main_sched(&args),
         "cli" => clicheck::main_cli(&args),
         "convert" => convert::main_convert(&args),
+        "bdlparse" => bdlparse::main_bdlparse(&args),
         "faults" => faults::main_faults(&args),
         "locks" => locks::main_locks(&args),
         "locks-one" => locks::main_one(&args),
